@@ -27,7 +27,8 @@ KINDS = [
     ('perr', 'perr', None),
     ('boom', 'boom', [5]),
 ]
-INVALID_ELEMS = [1, {}, {'jsonrpc': '2.0', 'method': 1, 'id': 7}]
+INVALID_ELEMS = [1, {}, {'jsonrpc': '2.0', 'method': 1, 'id': 7}, {'jsonrpc': '2.0', 'method': 'ok', 'params': None, 'id': 8},
+                 {'jsonrpc': '2.0', 'method': 'ok', 'params': 0}]
 ID_ALPHABET = [1, '1', 0, '', -1, '__absent__', None]
 DISPS = ['sync', 'async', 'async-seq', 'async-wrapped', 'sync-custom', 'async-custom']
 
